@@ -61,11 +61,15 @@ func (tr *Tr) mkPoints(pts []Pt) ([]imodels.Point, []string, []any) {
 // writeCall performs the API call of a write op and returns (via, ret).
 func (tr *Tr) writeCall(op Op, ps []imodels.Point, lines []string) (string, string) {
 	if op.HTTP {
-		code := tr.w.writeHTTP(op.DB, op.RP, lines)
-		if code == 204 {
-			return "http", "ok"
+		code := tr.w.writeHTTP(op.DB, op.RP, lines, op.Enc)
+		via := "http"
+		if op.Enc != "" {
+			via += "-" + op.Enc
 		}
-		return "http", fmt.Sprintf("http status %d", code)
+		if code == 204 {
+			return via, "ok"
+		}
+		return via, fmt.Sprintf("http status %d", code)
 	}
 	return "api", retStr(tr.w.Env.Write(op.DB, op.RP, ps...))
 }
@@ -84,6 +88,21 @@ func (tr *Tr) Do(op Op) {
 		}
 	case "start":
 		tr.t.Event("Lc", rt.M{"op": "start", "t": op.T, "ret": tr.start(op.T)})
+	case "await":
+		// not an action of the specification: give a dying task time to die
+		// (ordinary, logged writes) feed it points until its source node has failed, i.e. the fork
+		// edge is aborted: every stage of the failure needs a point that meets the aborted edge below it
+		if tr.exec[op.T] && tr.tasks[op.T].Dies {
+			dbrps := tr.tasks[op.T].DBRPs
+			for i := 0; i < 60 && !tr.w.nodeFailed(op.T, "stream"); i++ {
+				d := dbrps[i%len(dbrps)]
+				tr.Do(Op{Kind: "write", DB: d.Database, RP: d.RetentionPolicy, Pts: burstPts, Sync: true})
+				tr.w.settle(op.T)
+			}
+			if !tr.w.nodeFailed(op.T, "stream") {
+				tr.w.notDying++
+			}
+		}
 	case "startfail":
 		// StartTask of a task whose snapshot cannot be loaded: returns an error, the task is not executing
 		tr.scan = true
@@ -131,6 +150,9 @@ func (tr *Tr) start(id string) string {
 }
 
 func (tr *Tr) stop(kind, id string) string {
+	if tr.exec[id] && tr.tasks[id].Dies && tr.w.nodeFailed(id, "stream") {
+		tr.w.deaths++ // statistics only: the fork edge of this task was aborted while it was registered
+	}
 	ret := tr.guarded(kind+" "+id, func() error {
 		if kind == "delete" {
 			return tr.w.Env.TM.DeleteTask(id)
